@@ -99,10 +99,19 @@ func GenC16(seed uint64) *Plan {
 		if mode != model.ModeLog && nf == 0 {
 			nf = 1
 		}
+		// a field may be stored under any column name
+		rename := g.chance(40)
+		colFor := func(f string) string {
+			if !rename || shared {
+				return f
+			}
+			return "u_" + word()
+		}
 		for _, pi := range g.R.Perm(len(fields))[:nf] {
 			f := fields[pi]
-			d.Block = append(d.Block, model.Field{Name: f, Column: f})
-			addCol(f, FieldType[f])
+			col := colFor(f)
+			d.Block = append(d.Block, model.Field{Name: f, Column: col})
+			addCol(col, FieldType[f])
 		}
 		if mode == model.ModeTrace {
 			has := false
@@ -112,8 +121,9 @@ func GenC16(seed uint64) *Plan {
 				}
 			}
 			if !has {
-				d.Block = append(d.Block, model.Field{Name: "trace_action_to", Column: "trace_action_to"})
-				addCol("trace_action_to", "bytea")
+				col := colFor("trace_action_to")
+				d.Block = append(d.Block, model.Field{Name: "trace_action_to", Column: col})
+				addCol(col, "bytea")
 			}
 		}
 		// identity columns supplied by the user in some runs (with the documented types)
